@@ -32,7 +32,8 @@ def regenerate(repo, gen_dir):
     ch5 = gen_sat_tokens(repo, gen_dir)
     ch6 = gen_writer_formats(repo, gen_dir)
     ch7 = gen_iccma_tokens(repo, gen_dir)
-    return ch or ch2 or ch3 or ch4 or ch5 or ch6 or ch7
+    ch8 = gen_dispatch(repo, gen_dir)
+    return ch or ch2 or ch3 or ch4 or ch5 or ch6 or ch7 or ch8
 
 
 def parse_char(tok):
@@ -392,3 +393,80 @@ def gen_iccma_tokens(repo, gen_dir):
                "/-- label of the first argument -/\ndef iccmaFirstLabel : Nat := %s\n\nend Crusta.Gen\n") % (
         ord(c.group(1)), n.group(1), aw.group(1), codes(f.group(1)), codes(k.group(1)), lab.group(1))
     return write_if_changed(os.path.join(gen_dir, "IccmaTokens.lean"), content)
+
+
+# ----------------------------------------------------------------------------- CLI dispatch tables (app/solve_command.rs)
+
+_SOLVER_KIND = {"Grounded": "GR", "Complete": "CO", "Preferred": "PR", "Stable": "ST", "SemiStable": "SST", "Stage": "STG", "Ideal": "ID"}
+
+
+def gen_dispatch(repo, gen_dir):
+    """which solver type answers each problem, and which encoder each (semantics, --encoding) pair selects;
+    Props/C05 proves that the Lean dispatch functions are exactly these tables"""
+    src = open(os.path.join(repo, "src/app/solve_command.rs")).read()
+    rows = []
+    for task, fn in (("SE", "compute_one_extension"), ("DC", "check_credulous_acceptance"), ("DS", "check_skeptical_acceptance")):
+        m = re.search(r"fn %s<.*?\n\}\n" % fn, src, re.S)
+        if not m:
+            raise RuntimeError("%s not found in solve_command.rs" % fn)
+        body = m.group(0)
+        arms = list(re.finditer(r"((?:Semantics::\w+\s*\|?\s*)+)=>", body))
+        if not arms:
+            raise RuntimeError("no match arms in %s" % fn)
+        for i, a in enumerate(arms):
+            seg = body[a.end():arms[i + 1].start() if i + 1 < len(arms) else len(body)]
+            sv = re.search(r"\b(\w+)SemanticsSolver::", seg)
+            if not sv or sv.group(1) not in _SOLVER_KIND:
+                raise RuntimeError("cannot tell the solver of an arm of %s" % fn)
+            for sem in re.findall(r"Semantics::(\w+)", a.group(1)):
+                rows.append((task, sem, _SOLVER_KIND[sv.group(1)]))
+    if len(rows) != 21 or len(set((t, s_) for t, s_, _ in rows)) != 21:
+        raise RuntimeError("the dispatch no longer has one arm per problem: %r" % rows)
+    # encoder table
+    m = re.search(r"fn create_encoder<.*?\n\}\n", src, re.S)
+    if not m:
+        raise RuntimeError("create_encoder not found")
+    body = m.group(0)
+    body = body[body.index("match sem {"):]
+    heads = list(re.finditer(r"\n        (Semantics::[^\n]*?|_) =>", body))
+    enc_rows = []
+
+    def enc_id(seg):
+        ids = []
+        for mm in re.finditer(r"aux_var_constraints_encoder::new_for_(\w+)|exp_constraints_encoder::new_for_(\w+)|(HybridCompleteConstraintsEncoder)", seg):
+            if mm.group(1):
+                ids.append({"conflict_freeness": "auxCF", "admissibility": "auxADM", "complete_semantics": "auxCO"}[mm.group(1)])
+            elif mm.group(2):
+                ids.append({"conflict_freeness": "expCF", "complete_semantics": "expCO"}[mm.group(2)])
+            else:
+                ids.append("hyb")
+        if len(ids) != 1:
+            raise RuntimeError("cannot tell the encoder of an arm of create_encoder: %r" % seg[:80])
+        return ids[0]
+    for i, h in enumerate(heads):
+        seg = body[h.end():heads[i + 1].start() if i + 1 < len(heads) else len(body)]
+        head = h.group(1)
+        sems = re.findall(r"Semantics::(\w+)", head)
+        guard = "SE-PR" if '== "SE-PR"' in head else ""
+        if head != "_" and (" if " in head) != bool(guard):
+            raise RuntimeError("unexpected guard in create_encoder: %r" % head)
+        key = "[" + ", ".join('"%s"' % x for x in sems) + "]"
+        if re.match(r"\s*None,", seg):
+            enc_rows.append((key, guard, "", "", "none"))
+            continue
+        d = re.search(r'match encoding_as_str\("([^"]*)"\) \{', seg)
+        if not d:
+            raise RuntimeError("unexpected arm body in create_encoder: %r" % seg[:80])
+        keys = list(re.finditer(r'\n\s*"(\w+)" =>', seg))
+        for j, kk in enumerate(keys):
+            sub = seg[kk.end():keys[j + 1].start() if j + 1 < len(keys) else len(seg)]
+            sub = sub.split("_ => unreachable!()")[0]
+            enc_rows.append((key, guard, d.group(1), kk.group(1), enc_id(sub)))
+    content = ("/-! Regenerated from /repo/src/app/solve_command.rs by tools/gen_from_source.py on every run. Do not edit. -/\n\n"
+               "namespace Crusta.Gen\n\n"
+               "/-- (task, semantics, solver type answering the problem) -/\n"
+               "def dispatchTable : List (String × String × String) := [%s]\n\n"
+               "/-- `create_encoder`: (semantics of the arm, `[]` for `_`; guard on the literal problem string, default `--encoding`, `--encoding` value, encoder), in source order -/\n"
+               "def encoderTable : List (List String × String × String × String × String) := [%s]\n\nend Crusta.Gen\n") % (
+        ", ".join('("%s", "%s", "%s")' % r for r in rows), ", ".join('(%s, "%s", "%s", "%s", "%s")' % r for r in enc_rows))
+    return write_if_changed(os.path.join(gen_dir, "Dispatch.lean"), content)
